@@ -29,6 +29,8 @@ pub enum TruthTableFromCsvError {
     },
     #[error("Row with index {row_index} repeats the input values of an earlier row")]
     DuplicateRow { row_index: usize },
+    #[error("A table with {variable_count} variables has too many rows to be represented")]
+    TooManyVariables { variable_count: usize },
     #[error("Found no delimiter, expected one of the following characters: .,`|\\t")]
     NoDelimiterFound,
     #[error(transparent)]
@@ -50,6 +52,7 @@ impl From<TruthTableFromCsvError> for PyErr {
             | e @ RecordDifferentSizeThanHeader { .. }
             | e @ NoOutputColumn
             | e @ DuplicateRow { .. }
+            | e @ TooManyVariables { .. }
             | e @ MismatchedRecordCountAndVariableCount { .. }
             | e @ NoDelimiterFound => PyRuntimeError::new_err(e.to_string()),
             ParsingError(e) => PyRuntimeError::new_err(e.to_string()),
